@@ -58,8 +58,11 @@ RENAME_ATTR = {"kebab": None, "snake": "snake_case", "UPPER": "UPPER", "lower": 
 class VEnum:
     """variants: list of (Ident, skip, explicit_name or None, [aliases])"""
 
-    def __init__(self, name, variants, rename_all="kebab"):
+    def __init__(self, name, variants, rename_all="kebab", hidden=()):
         self.name, self.variants, self.rename_all = name, variants, rename_all
+        # `#[value(hide = true)]`: absent from help and from the error's list of possible values, but still a value --
+        # names and aliases of a hidden variant parse like any other (seeded change seed3/C15-2 dropped them at parse time)
+        self.hidden = set(hidden)
 
     def vname(self, i):
         ident, _skip, explicit, _al = self.variants[i]
@@ -87,6 +90,8 @@ class VEnum:
                 attrs.append('name = "%s"' % explicit)
             for a in aliases:
                 attrs.append('alias = "%s"' % a)
+            if ident in self.hidden:
+                attrs.append("hide = true")
             if attrs:
                 out.append("    #[value(%s)]" % ", ".join(attrs))
             out.append("    %s," % ident)
@@ -339,11 +344,11 @@ class SubEnum:
 
 # ------------------------------------------------------------------ the corpus
 EN_A = VEnum("EnA", [("Alpha", False, None, []), ("BetaGamma", False, None, []),
-                     ("Delta", False, None, ["d", "dd"]), ("Hidden", True, None, [])])
+                     ("Delta", False, None, ["d", "dd"]), ("Hidden", True, None, [])], hidden=("Delta",))
 EN_B = VEnum("EnB", [("Red", False, None, []), ("DarkBlue", False, None, ["navy"]),
                      ("Green", False, "grn", ["verde"])], rename_all="UPPER")
 EN_C = VEnum("EnC", [("OneTwo", False, None, []), ("Skipped", True, None, []),
-                     ("Three", False, None, ["3", "III"])], rename_all="snake")
+                     ("Three", False, None, ["3", "III"])], rename_all="snake", hidden=("OneTwo",))
 EN_D = VEnum("EnD", [("Ab", False, "ab", []), ("AbUpper", False, "AB", ["aB"]), ("Cd", False, None, ["CD"])],
              rename_all="PascalCase")
 VENUMS = [EN_A, EN_B, EN_C, EN_D]
